@@ -165,14 +165,17 @@ def namesGo : Bytes → Bytes → List Bytes → Except Err (List Bytes)
     else namesGo r (cur ++ [b]) acc
 
 /-- `read_reference_sequence_names`: `l_nm` (non-negative `i32`), then the names are parsed from
-`reader.take(l_nm)` read to ITS end — fewer bytes if the stream is shorter, no error for that -/
+`reader.take(l_nm)` read to ITS end — fewer bytes if the stream is shorter; after the names a `Take`
+that still has a limit left (the stream ended before `l_nm` bytes) is `UnexpectedEof` (/repo `fix:`
+125ecd7; before it a names block cut short by the end of the input was accepted with the names that
+were there). A parse error of what is there (a last name without NUL, a repeated name) comes first. -/
 def decNames : Dec (List Bytes) := fun r =>
   match i32nn r with
   | .error e => .error e
   | .ok (l, r1) =>
     match namesGo (r1.take l) [] [] with
     | .error e => .error e
-    | .ok names => .ok (names, r1.drop l)
+    | .ok names => if r1.length < l then .error .eof else .ok (names, r1.drop l)
 
 def encHeader (h : Header) : Bytes :=
   le 4 (encFormat h.format) ++ (le 4 (h.colSeq + 1) ++ (le 4 (h.colBeg + 1) ++ (encColEnd h ++
